@@ -262,6 +262,7 @@ void sess_gen_dhist(Plan* p, Rng* r) {
         default: in_len = rng_chunk(r, 1 << 20, ZSTD_DStreamInSize()); out_cap = rng_chunk(r, 1 << 20, ZSTD_DStreamOutSize()); break;
         }
         rep = rng_coin(r, 1, 2) ? (int)rng_range(r, 1, 600) : 1;
+        if (in_len < 1) in_len = 1; if (out_cap < 1) out_cap = 1;   /* property: calls given consumable input and writable output */
         plan_add(p, "ds", 3, (int64_t)in_len, (int64_t)out_cap, (int64_t)rep);
     }
     plan_set(p, "dfin_in", (int64_t)(1 + rng_chunk(r, 1 << 20, ZSTD_DStreamInSize())));
@@ -269,11 +270,13 @@ void sess_gen_dhist(Plan* p, Rng* r) {
 }
 void dec_result_free(DecResult* r) { free(r->out); memset(r, 0, sizeof *r); }
 
-typedef struct { const uint8_t* wire; size_t wire_size; size_t pos; int magicless; int check; size_t frame_ends[300]; int nframe_ends; long stall; size_t last_ret; } DH;
+typedef struct { const uint8_t* wire; size_t wire_size; size_t pos; int magicless; int check; size_t* frame_ends; int nframe_ends, cframe_ends; long stall; size_t last_ret; } DH;
 
 static void dh_frame_ends(DH* d) {
     size_t ip = 0;
-    while (ip < d->wire_size && d->nframe_ends < 300) { FwFrame f; if (fw_parse(d->wire + ip, d->wire_size - ip, d->magicless, &f) != 0) break; ip += f.total_size; d->frame_ends[d->nframe_ends++] = ip; fw_free(&f); }
+    while (ip < d->wire_size) { FwFrame f; if (fw_parse(d->wire + ip, d->wire_size - ip, d->magicless, &f) != 0) break; ip += f.total_size;
+        if (d->nframe_ends == d->cframe_ends) { d->cframe_ends = d->cframe_ends ? d->cframe_ends * 2 : 64; d->frame_ends = (size_t*)realloc(d->frame_ends, sizeof(size_t) * (size_t)d->cframe_ends); }
+        d->frame_ends[d->nframe_ends++] = ip; fw_free(&f); }
 }
 static int one_dcall(DH* d, ZSTD_DCtx* dctx, DecResult* r, size_t in_len, size_t out_cap) {
     uint8_t* src; uint8_t* dst; ZSTD_inBuffer in; ZSTD_outBuffer out; size_t ret; const char* e; int i;
@@ -302,7 +305,7 @@ static int one_dcall(DH* d, ZSTD_DCtx* dctx, DecResult* r, size_t in_len, size_t
     return 0;
 }
 void sess_run_dhist(const Plan* p, ZSTD_DCtx* dctx, const uint8_t* wire, size_t wire_size, int magicless, int check_frame_ends, DecResult* r) {
-    DH d; int i; long cap = (long)wire_size * 2 + 200000; size_t fin_in = (size_t)plan_get(p, "dfin_in", 1 << 17), fin_out = (size_t)plan_get(p, "dfin_out", 1 << 17); long idle = 0;
+    DH d; int i; long cap = ((long)wire_size + (64L << 20)) * 2; size_t fin_in = (size_t)plan_get(p, "dfin_in", 1 << 17), fin_out = (size_t)plan_get(p, "dfin_out", 1 << 17); long idle = 0;
     memset(&d, 0, sizeof d); memset(r, 0, sizeof *r);
     d.wire = wire; d.wire_size = wire_size; d.magicless = magicless; d.check = check_frame_ends; d.last_ret = 1;
     if (check_frame_ends) dh_frame_ends(&d);
@@ -312,20 +315,21 @@ void sess_run_dhist(const Plan* p, ZSTD_DCtx* dctx, const uint8_t* wire, size_t 
         if (strcmp(o->kind, "ds")) continue;
         rep = o->nargs > 2 ? (long)o->a[2] : 1; if (rep < 1) rep = 1; if (rep > 100000) rep = 100000;
         for (k = 0; k < rep; k++) {
-            size_t in_len = o->a[0] < 0 ? 0 : (size_t)o->a[0], out_cap = o->a[1] < 0 ? 0 : (size_t)o->a[1];
+            size_t in_len = o->a[0] < 1 ? 1 : (size_t)o->a[0], out_cap = o->a[1] < 1 ? 1 : (size_t)o->a[1];
             if (out_cap > ((size_t)1 << 28)) out_cap = (size_t)1 << 28;
             if (d.pos == wire_size && d.last_ret == 0) break;
-            if (one_dcall(&d, dctx, r, in_len, out_cap) != 0) return;
+            if (one_dcall(&d, dctx, r, in_len, out_cap) != 0) { free(d.frame_ends); return; }
             r->ncalls += 0;
             if (r->ncalls > cap) sim_violation("livelock", "decompression history exceeded %ld calls", cap);
         }
     }
     while (!(d.pos == wire_size && d.last_ret == 0)) {
         size_t before_out = r->out_size, before_in = d.pos;
-        if (one_dcall(&d, dctx, r, fin_in, fin_out) != 0) return;
+        if (one_dcall(&d, dctx, r, fin_in, fin_out) != 0) { free(d.frame_ends); return; }
         if (r->out_size == before_out && d.pos == before_in) { if (++idle > 4) break; } else idle = 0;   /* truncated stream: decoder waits for more */
         if (r->ncalls > cap) sim_violation("livelock", "decompression did not finish within %ld calls", cap);
     }
+    free(d.frame_ends);
 }
 
 /* ---------------- oracles ---------------- */
